@@ -65,7 +65,7 @@ def r_ledger2(root):
                 ok2 = False; out.append(Finding("C15", "C15.d", M, "TextXModelParser._release_user_obj_attrs", u[:120], "the release of the per-object storage depends on %s, which is not the record made at creation" % u[:60]))
     ob("C15", "C15.d", M, "TextXModelParser._release_user_obj_attrs", "release is unconditional w.r.t. everything but the recorded ids", ok2)
     # ---------------- L2b
-    pn = find(t, "parse_tree_to_objgraph.process_node"); g = CFG(pn)
+    pn = find_i(root, M, "parse_tree_to_objgraph.process_node"); g = CFG(pn)
     create = [n for n in g.nodes if n.kind == "stmt" and isinstance(n.ast, ast.Assign) and isinstance(n.ast.targets[0], ast.Subscript) and "_tx_obj_attrs" in ast.unparse(n.ast.targets[0].value)]
     record = [n for n in g.nodes if n.kind == "stmt" and any(callee_name(c) == "append" and "_user_obj_ids" in ast.unparse(c.func) for c in calls(n.ast))]
     if not create: raise AnalysisError("creation of the per-object storage not found in process_node")
